@@ -18,6 +18,7 @@ type propOwner struct {
 	shares bool                         // a copy whose chain links may be shared with its source
 	stale  func() bool                  // handles: does Column(n) now return a different pointer?
 	cell   *tabular.Cell                // copies: the caller-owned cell value
+	sizes  map[string]int               // printed size of the stored state, per set of keys held
 }
 
 func (p *propOwner) model() *propOwner {
@@ -80,9 +81,12 @@ func (w *World) rowOwner(h *mRow) *propOwner {
 		h.owner.chain = func() string {
 			s := fmt.Sprintf("%#v", h.real)
 			if i := strings.Index(s, ".Cells{"); i >= 0 {
-				s = s[:i]
+				return s[:i]
 			}
-			return s
+			if h.sep || len(h.cells) == 0 {
+				return s
+			}
+			return "" // cannot separate the row's own state from its cells': not measured
 		}
 	}
 	return h.owner
@@ -176,7 +180,7 @@ func (w *World) DoProp(st *Step) bool {
 		var val interface{}
 		if st.D != 0 {
 			w.nextVal++
-			val = 100 + w.nextVal
+			val = 1000 + w.nextVal%9000 // always four digits, unique within any realistic run
 		}
 		m := o.model()
 		if _, had := m.vals[key]; had {
@@ -367,8 +371,15 @@ func (w *World) CheckC12(op string) *Violation {
 		}
 		if o.chain != nil && o.alias == nil {
 			if s := o.chain(); s != "" {
-				if n := countLinks(s); n != len(m.vals) {
-					return v("stored-state-size:"+kind, "%s holds %d keys but its stored chain has %d links: %s", o.name, len(m.vals), n, trunc(s, 300))
+				// only the part that prints the properties: what precedes it holds
+				// counters (row number, callback count) whose digits may change
+				if i := strings.Index(s, ".Props{"); i >= 0 {
+					s = s[i:]
+				} else {
+					s = "-"
+				}
+				if d := o.sizeCheck(w, m, len(s)); d != "" {
+					return v("stored-state-size:"+kind, "%s: %s: %s", o.name, d, trunc(s, 300))
 				}
 			}
 		}
@@ -380,18 +391,69 @@ func (w *World) CheckC12(op string) *Violation {
 		cut = i
 	}
 	if cut >= 0 {
-		want := len(w.tableOwner.vals)
+		// one pseudo-owner for "table + all columns": its key set is the union,
+		// tagged by owner, and the column count (each column prints a fixed stub)
+		sig := fmt.Sprintf("ncols=%d|", w.Core.NColumns())
+		sig += keySig(w, w.tableOwner, "t")
 		for n := 0; n < len(w.colOwners) && n <= w.Core.NColumns(); n++ {
-			want += len(w.colOwners[n].vals)
+			sig += keySig(w, w.colOwners[n], fmt.Sprintf("c%d", n))
 			if c := w.Core.Column(n); c != nil && c.GetProperty(colIdentKey{}) != nil {
-				want++ // the simulator's own column identity tag
+				sig += fmt.Sprintf("c%d:tag,", n)
 			}
 		}
-		if n := countLinks(s[:cut]); n != want {
-			return v("stored-state-size:table+columns", "table and columns hold %d keys but their stored chains have %d links: %s", want, n, trunc(s[:cut], 400))
+		// the prefix also prints counts (errors, rows, callbacks) whose digits may
+		// change: keep only the table's Props{...} part and the column list
+		body := s[:cut]
+		if i := strings.Index(body, ".Columns{"); i >= 0 {
+			hdr := body[:i]
+			if j := strings.Index(hdr, ".Props{"); j >= 0 {
+				body = hdr[j:] + body[i:]
+			} else {
+				body = body[i:]
+			}
+			if w.tcSizes == nil {
+				w.tcSizes = map[string]int{}
+			}
+			if old, ok := w.tcSizes[sig]; ok && old != len(body) {
+				return v("stored-state-size:table+columns", "table and columns hold the same keys as at an earlier step but their printed stored state went from %d to %d bytes: %s", old, len(body), trunc(body, 400))
+			} else if !ok {
+				w.tcSizes[sig] = len(body)
+			}
 		}
 	}
 	return nil
+}
+
+// keySig lists the keys an owner holds (by pool index), for size bookkeeping.
+func keySig(w *World, o *propOwner, tag string) string {
+	s := ""
+	for ki, key := range w.keyPool {
+		if _, ok := o.vals[key]; ok {
+			s += fmt.Sprintf("%s:%d,", tag, ki)
+		}
+	}
+	return s
+}
+
+// sizeCheck enforces "stored state is a function of the keys held": whenever
+// an owner holds exactly the keys it held at some earlier step, the printed
+// form of its stored state (fmt %#v) must have the same length — all values
+// are four-digit integers.  This does not depend on how the chain is printed,
+// only on its being printed; re-setting a key that leaves a stale link behind
+// makes the text longer for the same key set.
+func (o *propOwner) sizeCheck(w *World, m *propOwner, n int) string {
+	if o.sizes == nil {
+		o.sizes = map[string]int{}
+	}
+	sig := keySig(w, m, "k")
+	if old, ok := o.sizes[sig]; ok {
+		if old != n {
+			return fmt.Sprintf("holds the same %d keys as at an earlier step but its printed stored state went from %d to %d bytes", len(m.vals), old, n)
+		}
+		return ""
+	}
+	o.sizes[sig] = n
+	return ""
 }
 
 func trunc(s string, n int) string {
